@@ -30,17 +30,17 @@ class TLCResult:
     def known(self):
         out = []
         for ln in self.printed:
-            m = re.match(r'<<"KNOWN", "([^"]+)", (.*)>>$', ln)
+            m = re.match(r'<<\s*"KNOWN",\s*"([^"]+)",\s*(.*?)\s*>>$', ln)
             if m:
                 out.append((m.group(1), m.group(2)))
         return out
 
     def tagged(self, tag):
         out = []
-        pre = '<<"%s", ' % tag
         for ln in self.printed:
-            if ln.startswith(pre) and ln.endswith(">>"):
-                out.append(ln[len(pre):-2])
+            m = re.match(r'<<\s*"%s",\s*(.*?)\s*>>$' % re.escape(tag), ln)
+            if m:
+                out.append(m.group(1))
         return out
 
 
